@@ -129,7 +129,14 @@ func Execute(t *testing.T, c *Case) (res Result) {
 		}()
 		w.finish()
 		res.Viol = w.Violations()
-		res.Hash = w.Acc.Hash
+		// a run is identified by its generated case and by every scheduling decision taken
+		cj, _ := json.Marshal(struct {
+			Cfg map[string]int
+			Ops []Op
+		}{c.Cfg, c.Ops})
+		ch := fnv.New64a()
+		ch.Write(cj)
+		res.Hash = w.Acc.Hash*1099511628211 ^ ch.Sum64()
 		res.Steps = w.Acc.Steps
 		res.SimTime = w.Acc.SimTime
 		res.EndCause = strings.Join(w.Acc.Ends, "+")
